@@ -204,7 +204,6 @@ theorem no_delivery_after_break_step (c : Conn) (e : Ev) (hb : c.broken = true) 
     · rcases h with e | e <;> cases e
     · exact h
   | enqueue r' => simpa only [step, hb, if_true] using h
-  | grant r' => simpa only [step, hb, if_true] using h
   | submitRace =>
     simp only [step, hb, if_true, getCaller_setCaller] at h
     split at h
@@ -259,8 +258,11 @@ theorem no_delivery_after_break (c : Conn) (evs : List Ev) (hb : c.broken = true
 
 /-! ## 3. the faults -/
 
-/-- A frame for a stream nobody is waiting on breaks the connection (`UnexpectedStreamId`) — and by
-`break_completes_everyone` everybody in flight is completed. -/
+/-- A frame on a stream `s ≥ 0` that is NOT outstanding at the server (never asked, or answered already) breaks the
+connection (`UnexpectedStreamId`) and everybody in flight is completed. This is the whole domain of the statement:
+frames on negative streams are ignored (`negative_stream_ignored`), a frame on an outstanding stream is that
+request's answer — dropped without a break if the id was orphaned (`orphaned_answer_is_dropped`,
+`outstanding_stream_no_break`). Non-vacuity: the example after `unowed_stream_frame_breaks`. -/
 theorem unsolicited_stream_breaks (c : Conn) (h : Inv c) (hb : c.broken = false) (s : Nat) (hs : s < 32768)
     (hno : ∀ r, (s, r) ∉ c.server) :
     (step c (.unsolicited s)).broken = true ∧ (step c (.unsolicited s)).cause = some .unexpectedStreamId ∧
@@ -281,8 +283,9 @@ theorem unsolicited_stream_breaks (c : Conn) (h : Inv c) (hb : c.broken = false)
   intro r
   exact break_completes_everyone _ ⟨h.map.freeUnowed hstr, { h.callers with }⟩ _ r
 
-/-- A keep-alive timeout is the break event with cause `KeepaliveTimeout` (the timer is abstract): the router
-ends, every handler receives that error. -/
+/-- Event level only: the break event with cause `KeepaliveTimeout` is `doBreak` (an unfolding) and completes
+everybody. That the keepaliver actually raises it when the peer stops answering is `keepalive_no_response_breaks` /
+`keepalive_stall_breaks` below, about `Model/ConnIO.lean` `kaTurn`. -/
 theorem keepalive_timeout_breaks (c : Conn) (h : Inv c) (hb : c.broken = false) (r : Nat) :
     step c (.break_ .keepaliveTimeout) = doBreak c .keepaliveTimeout ∧
     (step c (.break_ .keepaliveTimeout)).cause = some .keepaliveTimeout ∧
